@@ -319,10 +319,19 @@ def run_lines(cmd, lines, timeout=1800, cwd=None):
     results = []
     start = 0
     n = len(lines)
+    pre = None
+    if os.path.basename(str(cmd[0])) == "driver":
+        # the extracted model is structurally recursive OCaml (not tail-recursive): records with 65536 dependencies need more than
+        # the default 8 MiB of machine stack.  Only the model side gets it; the implementation runs with the default.
+        def pre():
+            import resource
+            soft, hard = resource.getrlimit(resource.RLIMIT_STACK)
+            want = 4 << 30
+            resource.setrlimit(resource.RLIMIT_STACK, (want if hard == resource.RLIM_INFINITY else min(want, hard), hard))
     while start < n:
         data = "\n".join(lines[start:]) + "\n"
         p = subprocess.run(cmd, input=data, stdout=subprocess.PIPE, stderr=subprocess.PIPE,
-                           text=True, errors="replace", timeout=timeout, env=ENV, cwd=cwd)
+                           text=True, errors="replace", timeout=timeout, env=ENV, cwd=cwd, preexec_fn=pre)
         out = p.stdout.split("\n")
         if out and out[-1] == "":
             out.pop()
